@@ -1,7 +1,8 @@
 #!/bin/bash
-# run the quick check of each seeded change's property against it; results in /tmp/seed/results/<id>.txt
-mkdir -p /tmp/seed/results
+# usage: run_all_seeds.sh <root> <ids...>   run the quick check of each seeded change's property against it
+ROOT=$1; shift
+mkdir -p $ROOT/results
 for i in "$@"; do
-  /verif/tools/try_seed.sh /tmp/seed/$i/out quick $i > /tmp/seed/results/$i.txt 2>&1
-  tail -1 /tmp/seed/results/$i.txt
+  /verif/tools/try_seed.sh $ROOT/$i/out quick $i > $ROOT/results/$i.txt 2>&1
+  tail -1 $ROOT/results/$i.txt
 done
